@@ -132,10 +132,30 @@ def quantizeExact (bs : Nat) : Nat → List Int → Option (List Int × List Int
         let (qs, ss) ← quantizeExact bs fuel (xs.drop bs)
         pure (q ++ qs, s :: ss)
 
+/-! ## Signed 4-bit weights (MatMulNBits layout `[N, k_blocks, block_size / 2]`, zero point 8) -/
+
+/-- Stored nibble of a signed 4-bit weight `w ∈ [−8, 7]` (`w + zero_point`). -/
+def nibbleOfWeight (w : Int) : Nat := (w + 8).toNat
+
+/-- Pack a column of signed weights, two per byte, even element in the low nibble
+(`pack_4bit_elements`). -/
+def packWeights (ws : List Int) : List Nat := packNibbles (ws.map nibbleOfWeight)
+
+/-- Dequantised integer weights of a column read back from its bytes (before scaling). -/
+def unpackWeights (bytes : List Nat) : List Int := (unpackBytes bytes).map fun (q : Nat) => (q : Int) - 8
+
+/-! ## LHS quantisation (`quantize`), abstractly
+
+`quantize` stores, per block, `scale = absmax/127` and `q_k = round(x_k / scale)`.  With integers in
+any common unit and `A = absmax > 0`: `q_k` is a nearest integer to `127·X_k / A`. -/
+
+/-- `q` is a nearest integer to `127·X / A`. -/
+def NearestQ (A X q : Int) : Prop := 2 * (q * A - 127 * X) ≤ A ∧ -A ≤ 2 * (q * A - 127 * X)
+
 /-! ## `BlockQuantizedMatrix::new` / `batched_gemm_uninit` argument checks -/
 
 inductive Err where
-  | unsupportedElementSize | unsupportedBlockSize
+  | unsupportedElementSize | unsupportedBlockSize | scalesShapeMismatch
   | outputSizeMismatch | kSizeMismatch | quantBitsNotSupported
   deriving DecidableEq, Repr
 
@@ -148,6 +168,14 @@ def checkNew (blockBytes bits : Nat) : Except Err Nat :=
     let blockSize := blockBytes * (8 / bits)
     if !isPow2 blockSize || blockSize < 16 then .error .unsupportedBlockSize
     else .ok blockSize
+
+/-- `BlockQuantizedMatrix::new` including the scales tensor: quant `(n, kBlocks, blockBytes)`, scales
+`(sn, snb)` must have one scale per block (`scalesShapeMismatch` otherwise; check added by the fix
+recorded in `findings/C37.json`). -/
+def checkNewScales (n kBlocks blockBytes bits sn snb : Nat) : Except Err Nat :=
+  match checkNew blockBytes bits with
+  | .error e => .error e
+  | .ok bs => if sn != n || snb != kBlocks then .error .scalesShapeMismatch else .ok bs
 
 /-- Argument checks of `BlockQuantizedGemm::batched_gemm_uninit`, in the code's order. -/
 def checkGemm (outLen batch m lhsK n kBlocks blockBytes bits : Nat) : Except Err Unit :=
